@@ -290,6 +290,37 @@ def run(chk):
         return True, "", ["%d narrowing casts, all in the allow table" % n]
     chk.ob("C13.R6:lossless-int-casts", "no integer is narrowed or sign-changed with `as` on its way to a sink's output (outside a reasoned table of timestamps/ids)", lossless_casts)
 
+    def point_arithmetic():
+        """Integer metric points are accumulated with overflow detection: an integer written to a data point comes straight from the
+        input or from the Some payload of a checked operation; a clamped or wrapped total is not the sum and must not be exported
+        as an exact integer."""
+        DPB = "emit_otlp::data::metrics::DataPointBuilder"
+        bs = [b for b in P.bodies.values() if b.crate == "emit_otlp" and (b.trait == DPB or (not b.is_closure and False)) and b.method in ("push_point_i64", "push_point_f64")]
+        bs = [x for b in bs for x in [b] + P.closures_of(b)]
+        if len(bs) < 4:
+            raise mir.AnchorMissing("DataPointBuilder::push_point_* impls (found %d)" % len(bs))
+        n = 0
+        ev = []
+        for b in bs:
+            for c in b.calls(normal_only=True):
+                nm = c.callee.get("name") or ""
+                if re.match(r"core::num::<impl [iu](8|16|32|64|128|size)>::", c.callee.get("path") or ""):
+                    n += 1
+                    if re.match(r"(saturating|wrapping|overflowing|unchecked)_", nm):
+                        return False, ("%s combines integer points with %s at %s: past i64::MIN/MAX the exported intValue is a clamped or wrapped "
+                                       "number, not the sum of the points (an overflow must leave the integer representation instead)"
+                                       % (b.key, nm, c.loc)), [], c.loc
+                    if nm.startswith("checked_"):
+                        ev.append("%s: %s" % (c.loc, nm))
+            for bb, j, st in b.statements(normal_only=True):
+                if st["k"] == "assign" and st["rv"]["k"] == "binop" and st["rv"]["op"] in ("Add", "Sub", "Mul", "AddUnchecked", "SubUnchecked", "MulUnchecked") \
+                        and b._op_ty(st["rv"]["a"]) in INT:
+                    return False, ("%s combines integer points with a wrapping %s at %s:%s" % (b.key, st["rv"]["op"], b.file, st.get("line"))), [], "%s:%s" % (b.file, st.get("line"))
+        if not ev:
+            return False, "no overflow-checked integer accumulation found in the sum point builder", [], None
+        return True, "", ev + ["%d integer operations in %d point-builder bodies" % (n, len(bs))]
+    chk.ob("C13.R6:point-arithmetic", "integer metric points are summed with overflow detection (checked, never clamped or wrapped)", point_arithmetic)
+
     def typed_casts_only():
         """Well-known values (level, ids, kind ...) are read from properties with the typed cast (typed value, else its text form), never by a
         bare downcast or a borrowed-string view, which would miss textual, Display-captured or buffered values."""
